@@ -46,9 +46,11 @@ class C15(Prop):
         deep = profile.endswith("-deep")
         profile = profile.removesuffix("-deep")
         limit = (1 + s.draw(8, "limit")) if deep else (1 + s.weighted((4, 3, 2, 1), "limit"))
-        pk = s.draw(7, "period")
-        p_steps = (128, 256, 1024, 128, 1024, 86400 * 1024, 90000 * 1024 + 512)[pk]
+        pk = s.draw(8, "period")
+        p_steps = (128, 256, 1024, 128, 1024, 86400 * 1024, 90000 * 1024 + 512, 342)[pk]
         period = p_steps * GRID
+        if pk == 7:
+            period += 2.0 ** -24  # about a third of a second, NOT a whole number of microseconds: 333984.43 us (nor of grid steps)
         if pk == 3:
             period_arg = timedelta(seconds=period)
         elif pk == 4:
